@@ -981,8 +981,24 @@ fn run_once_inner(c: &Case, prop: Prop) -> Result<Obs, (Fail, bool)> {
                         }
                     }
                 }
-                if twice && d2rx.recv_timeout(hard).is_err() {
-                    r.flag(Prop::C06, "C06/second-stop-unresolved", "the future of a second stop() never resolved".into(), true);
+                if twice {
+                    match d2rx.recv_timeout(hard) {
+                        Err(_) => r.flag(Prop::C06, "C06/second-stop-unresolved", "the future of a second stop() never resolved".into(), true),
+                        Ok(t2) => {
+                            // the second stop(true) is a graceful stop too: it does not complete while
+                            // connections are in progress and the timeout has not elapsed
+                            if graceful && !held_at_stop.is_empty() {
+                                let lower = match released_at {
+                                    Some(tr) => tr.duration_since(t0).min(timeout),
+                                    None => timeout,
+                                };
+                                let took2 = t2.duration_since(t0);
+                                if took2 + Duration::from_millis(20) < lower {
+                                    r.flag(Prop::C06, "C06/graceful-too-early", format!("the future of a second stop(true) completed after {:?} although {} connection(s) in progress were released only after {:?} and shutdown_timeout is {:?}", took2, held_at_stop.len(), released_at.map(|t| t.duration_since(t0)), timeout), false);
+                                }
+                            }
+                        }
+                    }
                 }
                 // the Server future resolves
                 let t1 = Instant::now();
